@@ -2,8 +2,8 @@
     Only pinned statements, each closed by [exact] of a lemma proved in
     Lex/PlaceholderLaws.v or Store/CursorLaws.v. *)
 From Coq Require Import ZArith List.
-From VibeSQL Require Import Lex.F64Display Lex.F64DisplayLaws Lex.Placeholder Lex.PlaceholderLaws Lex.FloatTextLaws
-  Lex.PlaceholderFixed Lex.PlaceholderFixedLaws Store.Cursor Store.CursorLaws.
+From VibeSQL Require Import Lex.F64Display Lex.F64DisplayLaws Lex.F64RoundLaws Lex.F64DragonLaws Lex.Placeholder
+  Lex.PlaceholderLaws Lex.FloatTextLaws Lex.FloatRoundtripLaws Lex.PlaceholderFixed Lex.PlaceholderFixedLaws Store.Cursor Store.CursorLaws.
 Import ListNotations.
 Open Scope Z_scope.
 
@@ -280,3 +280,43 @@ Theorem C30_value_roundtrip_nonfinite_refuted : forall b : Z, 0 <= b < two64 -> 
   exists t : text, read_back (PFloat b) = Some (RIdent t).
 Proof. exact roundtrip_nonfinite_refuted. Qed.
 Print Assumptions C30_value_roundtrip_nonfinite_refuted.
+
+(** * floats: printer (Dragon4) and reader (nearest-even) proved against each other *)
+
+(** the decimal Dragon4 produces lies in the rounding interval of the float (bounds included exactly when
+    the algorithm was told so) *)
+Theorem C30_dragon_in_interval : forall (m mi pl e : Z) (incl : bool) (ds : list Z) (k : Z),
+  2 <= m -> m + pl <= 2 ^ 55 -> 0 < mi -> 0 < pl -> -1077 <= e <= 970 ->
+  dragon_shortest m mi pl e incl = Some (ds, k) ->
+  let j := k - Z.of_nat (length ds) in
+  within incl (m - mi) e (m + pl) e (fst (dec_ratio (dv ds) j)) (snd (dec_ratio (dv ds) j)).
+Proof. exact dragon_in_interval. Qed.
+Print Assumptions C30_dragon_in_interval.
+
+(** the reader returns b for every rational in the rounding interval flt2dec::decode gives for b *)
+Theorem C30_reader_rounds_to_nearest : forall (b n d mant minus plus exp : Z) (incl : bool),
+  0 < b < two63 -> f64_decode b = DFinite mant minus plus exp incl ->
+  (f64_expf b = 0 -> Z.even (f64_frac b) = true) ->
+  0 < n -> 0 < d ->
+  within incl (mant - minus) exp (mant + plus) exp n d ->
+  f64_of_ratio n d = b.
+Proof. exact f64_of_ratio_decoded. Qed.
+Print Assumptions C30_reader_rounds_to_nearest.
+
+(** Dragon4 stops after at most 18 rounds: at most 19 digits, at most 421 fraction digits *)
+Theorem C30_dragon_digit_count : forall (m mi pl e : Z) (incl : bool) (ds : list Z) (k : Z),
+  2 <= m -> m + pl <= 2 ^ 55 -> 0 < mi -> 0 < pl -> -1077 <= e <= 970 ->
+  dragon_shortest m mi pl e incl = Some (ds, k) ->
+  (length ds <= 19)%nat /\ -421 <= k - Z.of_nat (length ds).
+Proof. exact dragon_digit_count. Qed.
+Print Assumptions C30_dragon_digit_count.
+
+(** EVERY finite float is read back as the same double: as a Numeric double, or as the integer literal
+    whose binary64 conversion is that double (integral floats print without a '.'); the sign of zero is
+    lost.  (Subnormals with an odd mantissa need an extra argument: flt2dec::decode marks the interval of
+    every subnormal as inclusive, the reader resolves the end points of an odd mantissa away from it; but
+    an end point is an odd multiple of 2^-1075 and the printed decimal has at most 421 fraction digits.) *)
+Theorem C30_float_roundtrip : forall b : Z, 0 <= b < two64 -> f64_finite b = true ->
+  exists r : rval, read_back (PFloat b) = Some r /\ as_double r = Some (if f64_is_zero b then 0 else b).
+Proof. exact float_roundtrip. Qed.
+Print Assumptions C30_float_roundtrip.
